@@ -481,14 +481,28 @@ def big_sparse_case(draw):
     return {"n": draw(st.sampled_from([999, 1000, 1001, 1200])), "seed": draw(st.integers(0, 2 ** 31 - 1)),
             "fmt": draw(st.sampled_from(["csr_matrix", "coo_matrix", "csc_matrix", "lil_matrix"])),
             "builder": draw(st.sampled_from(["normalize", "normalize", "transpose"])),
-            "drift": draw(st.sampled_from([1, 2, 4]))}
+            "drift": draw(st.sampled_from([1, 2, 4])), "topology": draw(st.sampled_from(["expander", "expander", "basins"]))}
 
 
 def run_big_sparse(case):
     n = case["n"]
     rng = np.random.RandomState(case["seed"])        # seed drawn by Hypothesis
     idx = np.arange(n)
-    if case.get("topology", "expander") == "ring":
+    if case.get("topology", "expander") == "basins":
+        # six rapidly mixing basins joined by a few weak links, SYMMETRIC counts: metastable (second eigenvalue close to
+        # one) and the exact populations are known without any eigen-solver: row totals / grand total
+        nb = 6
+        lab = idx % nb
+        rows_l, cols_l, vals_l = [], [], []
+        for b in range(nb):
+            mem = idx[lab == b]
+            for _ in range(4):
+                p_ = rng.permutation(mem)
+                rows_l.append(mem); cols_l.append(p_); vals_l.append(rng.randint(5, 40, size=len(mem)))
+            rows_l.append(mem[:3]); cols_l.append(idx[lab == (b + 1) % nb][:3]); vals_l.append(np.ones(3, dtype=int))
+        r_, c_, v_ = np.concatenate(rows_l), np.concatenate(cols_l), np.concatenate(vals_l).astype(np.int64)
+        rows, cols, vals = np.concatenate([r_, c_]), np.concatenate([c_, r_]), np.concatenate([v_, v_])     # symmetrise
+    elif case.get("topology", "expander") == "ring":
         # slowly mixing banded ring (hundreds of eigenvalues within 1e-3 of one): see known finding C04-arpack-ring
         up = rng.randint(1, 30, size=n) * case["drift"]
         down = rng.randint(1, 30, size=n)
@@ -515,6 +529,10 @@ def run_big_sparse(case):
     require(np.max(np.abs(T - want)) <= 1e-12, "T != counts / row totals on a large sparse matrix")
     check_prob_vector(pi, n)
     res = float(np.max(np.abs(pi @ T - pi)))
+    if case.get("topology") == "basins" and case["builder"] == "normalize":
+        exact = Cd.sum(axis=1) / Cd.sum()
+        require(float(np.abs(pi - exact).sum()) <= 1e-6, "populations of a metastable 1000+-state chain with symmetric counts "
+                "differ from row totals / grand total", l1=float(np.abs(pi - exact).sum()), residual=res, n=n)
     require(res <= 1e-9, "returned populations are not stationary under the returned T (large sparse input)",
             residual=res, n=n, uniform_residual=float(np.max(np.abs(np.full(n, 1.0 / n) @ T - 1.0 / n))))
     require(np.array_equal(np.asarray(C.toarray()), Cd), "the caller's matrix was changed")
